@@ -173,7 +173,9 @@ func execC13(c C13Case) *Failure {
 		r.RegisterResource(&mcp.Resource{URI: "file:///" + n, Name: n}, func(ctx context.Context, req *mcp.ReadResourceRequest) (mcp.ResourceContents, error) {
 			return mcp.TextResourceContents{URI: "file:///" + n, Text: "x"}, nil
 		})
-		r.RegisterTool(mcp.NewTool(n), func(ctx context.Context, req *mcp.CallToolRequest) (*mcp.CallToolResult, error) { return mcp.NewTextResult("x"), nil })
+		r.RegisterTool(mcp.NewTool(n), func(ctx context.Context, req *mcp.CallToolRequest) (*mcp.CallToolResult, error) {
+			return mcp.NewTextResult("x"), nil
+		})
 	}
 	r.RegisterTool(mcp.NewTool("pub-echo", mcp.WithNumber("lat")), func(ctx context.Context, req *mcp.CallToolRequest) (*mcp.CallToolResult, error) {
 		tok := tokenOf(ctx)
